@@ -29,6 +29,8 @@ let dispatch (name : string) (args : n list) : n list list =
   match name with
   | "C02" -> run_c02 false args
   | "C02S" -> run_c02 true args
+  | "C03" -> run_c03 false args
+  | "C03S" -> run_c03 true args
   | _ -> failwith ("unknown case kind " ^ name)
 
 let () =
